@@ -947,7 +947,7 @@ pub fn run() -> SimResult {
     let cap = *pick(&[8192usize, 1, 8, 64, 3]);
     let kn = Knobs {
         classes: gen::GenCfg::draw_knobs().classes,
-        max_str: *pick(&[8u32, 40, 80, 200, 200]),
+        max_str: *pick(&[8u32, 40, 80, 200, 200, 200, 5000]),
         guarded: draw(4) != 0,
         near_page: draw(2) == 1,
         exotic: draw(2) == 1,
